@@ -146,3 +146,13 @@ theorem sysSeccomp_filter (flags : Nat) (uargs : Option Prog) (w : World) :
               simpa only [schedStep_live, schedStep_thr] using this
           · rw [if_neg h4]
             exact .attachedOne p rfl hok havail (by simpa using h1) (by simpa using h4) hpriv
+
+/-- the probe `seccomp(SECCOMP_SET_MODE_STRICT, 1, NULL)`: EINVAL if the syscall exists, ENOSYS if not;
+    nothing but the call log changes -/
+theorem sysSeccomp_probe (w : World) :
+    sysSeccomp 0 1 none w =
+      (0, if w.seccompAvailable = true then EINVAL else ENOSYS,
+        { schedStep w with log := .seccomp (schedStep w).cur 0 1 none :: w.log }) := by
+  unfold sysSeccomp
+  cases ha : w.seccompAvailable <;>
+    simp [SECCOMP_SET_MODE_STRICT, schedStep_avail, schedStep_log, ha]
